@@ -235,6 +235,9 @@ def run_go(pkg, test, outdir, tier, seed, timeout=1500, replay=None, race=False,
     env["VERIF_SEED"] = str(seed)
     if replay:
         env["VERIF_REPLAY"] = os.path.abspath(replay)
+    cdir = os.path.join(VERIF, "corpus", os.path.basename(outdir.rstrip("/")) if not outdir.rstrip("/").endswith("search") else os.path.basename(os.path.dirname(outdir.rstrip("/"))))
+    if os.path.isdir(cdir):
+        env["VERIF_CORPUS"] = cdir
     if extra_env:
         env.update(extra_env)
     cmd = ["go", "test", "-overlay=" + ov, "-tags", "verif", "-vet=off", "-count=1",
